@@ -305,7 +305,12 @@ class HMF(object):
             np.random.seed(self.seed)
         whitespectra = whiten(self.spectra)
         log.debug(whitespectra[0:3, 0:3])
-        self.g, foo = kmeans(whitespectra, self.K)
+        #
+        # A spectrum that is zero everywhere would get a component of its
+        # own, which cannot be normalized (0/0 makes every factor NaN).
+        #
+        self.g, foo = kmeans(whitespectra[(self.spectra != 0).any(1), :],
+                             self.K)
         # log.debug((self.normbase(), M))
         # log.debug(self.g.shape)
         self.g /= np.repeat(self.normbase(), M - n_zero).reshape(self.g.shape)
